@@ -125,12 +125,14 @@ Proof.
 Qed.
 
 (* the totals of a document without external rounding, and of the same document with one: same figures,
-   payable = the unrounded total with tax plus the rounding, rounded to the currency *)
+   the rounding is presented at the currency's decimals, payable = the unrounded total with tax plus the
+   presented rounding, rounded to the currency *)
 Lemma calculate_rounding d r t :
   d_rounding d = None -> calculate d = Totals t ->
   exists twt t', calculate (with_rounding d (Some r)) = Totals t' /\ (d_c d <= exp twt)%nat /\
-     t_twt t = rescale twt (d_c d) /\ t_payable t = t_twt t /\
-     t_twt t' = t_twt t /\ t_payable t' = rescale (add twt r) (d_c d).
+     t_twt t = rescale twt (d_c d) /\ t_payable t = t_twt t /\ t_rounding t = None /\
+     t_twt t' = t_twt t /\ t_payable t' = rescale (add twt (rescale r (d_c d))) (d_c d) /\
+     t_rounding t' = Some (rescale r (d_c d)).
 Proof.
   intros HR H. unfold calculate in *. unfold with_rounding.
   cbn [d_c d_currency_rule d_pit d_cur d_lines d_discounts d_charges d_rates d_advances d_dues d_rounding].
@@ -139,7 +141,7 @@ Proof.
   destruct (tax_lines lcs (d_lines d) _ _) as [|tl0 tls0]; [discriminate|].
   destruct (remove_included_all (d_pit d) _) as [tls2|]; [|discriminate].
   inversion H; subst t; clear H.
-  eexists. eexists. split; [reflexivity|]. cbn [t_twt t_payable].
+  eexists. eexists. split; [reflexivity|]. cbn [t_twt t_payable t_rounding].
   split; [|repeat split; reflexivity].
   rewrite add_exp.
   repeat match goal with
@@ -157,12 +159,21 @@ Proof.
 Qed.
 
 Lemma as_input_fields d d1 : as_input d = Some d1 ->
-  d_c d1 = d_c d /\ d_pit d1 = d_pit d /\ d_rounding d1 = d_rounding d /\ d_currency_rule d1 = d_currency_rule d /\
+  d_c d1 = d_c d /\ d_pit d1 = d_pit d /\ d_currency_rule d1 = d_currency_rule d /\
   d_cur d1 = d_cur d /\ d_rates d1 = d_rates d.
 Proof.
   unfold as_input. intros H.
   destruct (calc_lines _ _ _ _ _); [|discriminate].
   destruct (calculate d); try discriminate; inversion H; subst d1; cbn; repeat split; reflexivity.
+Qed.
+
+(* a document without external rounding is read back without one *)
+Lemma as_input_no_rounding d d1 : as_input d = Some d1 -> d_rounding d = None -> d_rounding d1 = None.
+Proof.
+  unfold as_input. intros H R.
+  destruct (calc_lines _ _ _ _ _); [|discriminate].
+  destruct (calculate d) as [|ls|t] eqn:C; try discriminate; inversion H; subst d1; cbn [d_rounding]; [exact R|].
+  destruct (calculate_rounding d (mkA 0 0) t R C) as (_ & _ & _ & _ & _ & _ & N & _). exact N.
 Qed.
 
 (* ---------------- RemoveIncludedTaxes: payable = the original total with tax ---------------- *)
@@ -172,13 +183,25 @@ Qed.
 Section Rit.
 Variable ds : bytes -> ddc -> ddc.
 
+Definition payable_is_twt_plus_rounding (t : totals) : Prop :=
+  t_payable t = match t_rounding t with Some r => add (t_twt t) r | None => t_twt t end.
+
+Lemma add_sub_back a b : exp a = exp b -> add b (sub a b) = a.
+Proof.
+  intros E. rewrite add_same by (cbn [sub exp]; exact E). unfold sub.
+  rewrite (rescale_same b) by (symmetry; exact E). cbn [val].
+  destruct a as [va ea], b as [vb eb]. cbn [val exp] in *. subst eb. f_equal. lia.
+Qed.
+
 Theorem rit_payable_with d t0 d1 t1 t :
   d_pit d <> [] -> calculate d = Totals t0 -> as_input d = Some d1 ->
   calculate (strip_doc_with ds (d_pit d) d1) = Totals t1 ->
   (forall d3, as_input (strip_doc_with ds (d_pit d) d1) = Some d3 -> calculate d3 = calculate (strip_doc_with ds (d_pit d) d1)) ->
   same_strict_sign_or_zero (t_twt t0) (t_twt t1) ->
   remove_included_taxes_with ds d = RitDone t ->
-  t_payable t = t_twt t0 /\ t_twt t = t_twt t1.
+  t_payable t = t_twt t0 /\ t_twt t = t_twt t1 /\
+  t_rounding t = (if equals (t_twt t0) (t_twt t1) then None else Some (sub (t_twt t0) (t_twt t1))) /\
+  payable_is_twt_plus_rounding t.
 Proof.
   intros HP H0 H1 H2 HF HS HR.
   unfold remove_included_taxes_with in HR.
@@ -187,21 +210,27 @@ Proof.
   set (d2 := strip_doc_with ds (b :: pit) d1) in *.
   destruct (as_input d2) as [d3|] eqn:A3; [|discriminate].
   destruct (as_input_fields d d1 H1) as (C1 & _).
-  destruct (as_input_fields d2 d3 A3) as (C3 & _ & R3 & _).
+  destruct (as_input_fields d2 d3 A3) as (C3 & _).
   assert (C2 : d_c d2 = d_c d) by (unfold d2, strip_doc_with; cbn [d_c]; exact C1).
   assert (R2 : d_rounding d2 = None) by reflexivity.
+  pose proof (as_input_no_rounding d2 d3 A3 R2) as R3.
   destruct (calculate_twt_exp d t0 H0) as [E0 _].
   destruct (calculate_twt_exp d2 t1 H2) as [E1 _].
+  unfold payable_is_twt_plus_rounding.
   destruct (equals (t_twt t0) (t_twt t1)) eqn:EQ.
-  - inversion HR; subst t; clear HR. split; [|reflexivity].
-    destruct (calculate_rounding d2 (mkA 0 0) t1 R2 H2) as (twt & t' & _ & _ & _ & Pay & _).
-    rewrite Pay. symmetry. apply equals_same_exp; [congruence|exact EQ].
+  - inversion HR; subst t; clear HR.
+    destruct (calculate_rounding d2 (mkA 0 0) t1 R2 H2) as (twt & t' & _ & _ & _ & Pay & N & _).
+    rewrite N, Pay. repeat split; try reflexivity.
+    symmetry. apply equals_same_exp; [congruence|exact EQ].
   - pose proof (HF d3 eq_refl) as F3. rewrite H2 in F3.
-    rewrite R2 in R3.
-    destruct (calculate_rounding d3 (sub (t_twt t0) (t_twt t1)) t1 R3 F3) as (twt & t' & C' & Ge & T1 & _ & T' & Pay).
-    rewrite C' in HR. inversion HR; subst t; clear HR. split; [|exact T'].
-    rewrite Pay, T1. rewrite C3, C2 in *. rewrite T1 in HS.
-    apply residue_restores; [exact Ge|exact E0|exact HS].
+    destruct (calculate_rounding d3 (sub (t_twt t0) (t_twt t1)) t1 R3 F3) as (twt & t' & C' & Ge & T1 & _ & _ & T' & Pay & Rd).
+    rewrite C' in HR. inversion HR; subst t; clear HR.
+    rewrite C3, C2 in *.
+    rewrite (rescale_same (sub (t_twt t0) (t_twt t1))) in Pay, Rd by (cbn [sub exp]; exact E0).
+    assert (PP : t_payable t' = t_twt t0).
+    { rewrite Pay, T1. rewrite T1 in HS. apply residue_restores; [exact Ge|exact E0|exact HS]. }
+    split; [exact PP|]. split; [exact T'|]. split; [exact Rd|].
+    rewrite Rd, T', PP. symmetry. apply add_sub_back. congruence.
 Qed.
 End Rit.
 
@@ -211,7 +240,9 @@ Theorem rit_payable d t0 d1 t1 t :
   no_excess_doc (strip_doc (d_pit d) d1) ->
   same_strict_sign_or_zero (t_twt t0) (t_twt t1) ->
   remove_included_taxes d = RitDone t ->
-  t_payable t = t_twt t0 /\ t_twt t = t_twt t1.
+  t_payable t = t_twt t0 /\ t_twt t = t_twt t1 /\
+  t_rounding t = (if equals (t_twt t0) (t_twt t1) then None else Some (sub (t_twt t0) (t_twt t1))) /\
+  payable_is_twt_plus_rounding t.
 Proof.
   intros HP H0 H1 H2 NE HS HR.
   apply (rit_payable_with ddc_strip d t0 d1 t1 t HP H0 H1 H2); [|exact HS|exact HR].
@@ -267,7 +298,7 @@ Lemma rit_example :
     d_pit d <> [] /\ calculate d = Totals t0 /\ as_input d = Some d1 /\
     calculate (strip_doc (d_pit d) d1) = Totals t1 /\ no_excess_doc (strip_doc (d_pit d) d1) /\
     same_strict_sign_or_zero (t_twt t0) (t_twt t1) /\ remove_included_taxes d = RitDone t /\
-    t_twt t0 = mkA 1221 2 /\ t_payable t = mkA 1221 2 /\ t_twt t = mkA 1222 2 /\
+    t_twt t0 = mkA 1221 2 /\ t_payable t = mkA 1221 2 /\ t_twt t = mkA 1222 2 /\ t_rounding t = Some (mkA (-1) 2) /\
     rit_document d = Some d' /\ calculate d' = Totals t.
 Proof.
   cbv zeta.
@@ -302,6 +333,7 @@ Proof.
     - vm_compute. constructor.
     - vm_compute. constructor. }
   split; [left; vm_compute; split; reflexivity|].
+  split; [vm_compute; reflexivity|].
   split; [vm_compute; reflexivity|].
   split; [vm_compute; reflexivity|].
   split; [vm_compute; reflexivity|].
